@@ -168,6 +168,9 @@ def mimeHtml : Text := ['t', 'e', 'x', 't', '/', 'h', 't', 'm', 'l']
 def mimeJson : Text := ['a', 'p', 'p', 'l', 'i', 'c', 'a', 't', 'i', 'o', 'n', '/', 'j', 's', 'o', 'n']
 def mimePlain : Text := ['t', 'e', 'x', 't', '/', 'p', 'l', 'a', 'i', 'n']
 
+/-- the list `prepare` passes to `acceptable_offers`: the three forms, in the server's order of preference -/
+def offeredForms : List Text := [mimeHtml, mimeJson, mimePlain]
+
 /-- `acceptable = [offer[0] for offer in acceptable] + ['text/plain']; match = acceptable[0]` -/
 def chooseMatch (q : Text → Nat) (offered : List Text) : Text :=
   match acceptableOffers q offered ++ [mimePlain] with
